@@ -49,27 +49,27 @@ type Run struct {
 	Root  string // /verif
 	Out   string // where evidence/ and replays/ are written (Root unless VERIF_OUT is set, e.g. for mutant runs)
 
-	mu          sync.Mutex
-	start       time.Time
-	evals       int64
-	distinct    map[string]struct{}
-	counters    map[string]int64
-	samples     []any
-	sampleKinds map[string]int
-	floors      map[string]floor
-	rule        string
-	assumptions []string
-	exhaustive  bool
-	extra       map[string]any
-	known       map[string]knownFinding
-	violations  map[string]string // key -> replay path
-	knownSeen   map[string]string // key -> what
-	inconcl     []string
+	mu           sync.Mutex
+	start        time.Time
+	evals        int64
+	distinct     map[string]struct{}
+	counters     map[string]int64
+	samples      []any
+	sampleKinds  map[string]int
+	floors       map[string]floor
+	rule         string
+	assumptions  []string
+	exhaustive   bool
+	extra        map[string]any
+	known        map[string]knownFinding
+	violations   map[string]string // key -> replay path
+	knownSeen    map[string]string // key -> what
+	inconcl      []string
 	inconclCases int64
-	journal     *os.File
-	lastJournal atomic.Int64
-	replayN     int
-	maxSamples  int
+	journal      *os.File
+	lastJournal  atomic.Int64
+	replayN      int
+	maxSamples   int
 }
 
 // Start creates the run from the environment: VERIF_TIER (quick|thorough),
@@ -249,7 +249,6 @@ func oneLine(s string) string {
 	}
 	return s
 }
-
 
 // PanicSite extracts a stable description of where a recovered panic happened:
 // the first repository frame of the stack below the panic.
